@@ -1,0 +1,91 @@
+//go:build verif
+
+package consensus
+
+// Hook for the /verif C04 node rig (build tag `verif`): run catchupReplay of a fully wired State
+// WITHOUT starting its receive routine, and list the WAL records it replays, so that the round
+// state reached by replay can be compared with the model's run over the same records. Add-only;
+// nothing here changes behaviour.
+
+import (
+	"io"
+
+	"github.com/tendermint/tendermint/types"
+)
+
+// VerifWALRecord is one record of the unfinished height as catchupReplay sees it.
+type VerifWALRecord struct {
+	Kind  string // timeout | proposal | part | vote | step | end | other
+	Peer  string
+	Round int32
+	Step  uint8 // timeout: cstypes.RoundStepType
+	// proposal / vote
+	VoteType int32
+	BlockID  types.BlockID
+	POLRound int32
+	ValIndex int32
+	// part
+	PartIndex  uint32
+	PartsTotal uint32
+	Height     int64
+}
+
+// VerifReplayOnly opens the WAL the way OnStart does (no repair loop), lists the records after
+// #ENDHEIGHT(height-1) and then runs the code's own catchupReplay for the current height. The
+// receive routine is not started, so own messages queued during replay stay queued. cs must not be
+// started; a ticker that never fires is installed.
+func VerifReplayOnly(cs *State) (height int64, recs []VerifWALRecord, found bool, err error) {
+	NewVerifNode(cs, nil)
+	if _, ok := cs.wal.(nilWAL); ok {
+		if err = cs.loadWalFile(); err != nil {
+			return cs.Height, nil, false, err
+		}
+	}
+	height = cs.Height
+	endHeight := height - 1
+	if height == cs.state.InitialHeight {
+		endHeight = 0
+	}
+	gr, found, serr := cs.wal.SearchForEndHeight(endHeight, &WALSearchOptions{IgnoreDataCorruptionErrors: true})
+	if serr == nil && found && gr != nil {
+		dec := WALDecoder{gr}
+		for {
+			msg, derr := dec.Decode()
+			if derr == io.EOF {
+				break
+			}
+			if derr != nil {
+				recs = append(recs, VerifWALRecord{Kind: "corrupt"})
+				break
+			}
+			recs = append(recs, verifRecord(msg))
+		}
+		gr.Close()
+	}
+	err = cs.catchupReplay(height)
+	return height, recs, found, err
+}
+
+func verifRecord(msg *TimedWALMessage) VerifWALRecord {
+	switch m := msg.Msg.(type) {
+	case EndHeightMessage:
+		return VerifWALRecord{Kind: "end", Height: m.Height}
+	case types.EventDataRoundState:
+		return VerifWALRecord{Kind: "step", Height: m.Height, Round: m.Round}
+	case timeoutInfo:
+		return VerifWALRecord{Kind: "timeout", Height: m.Height, Round: m.Round, Step: uint8(m.Step)}
+	case msgInfo:
+		switch x := m.Msg.(type) {
+		case *ProposalMessage:
+			return VerifWALRecord{Kind: "proposal", Peer: string(m.PeerID), Height: x.Proposal.Height, Round: x.Proposal.Round,
+				BlockID: x.Proposal.BlockID, POLRound: x.Proposal.POLRound}
+		case *BlockPartMessage:
+			return VerifWALRecord{Kind: "part", Peer: string(m.PeerID), Height: x.Height, Round: x.Round, PartIndex: x.Part.Index,
+				PartsTotal: uint32(x.Part.Proof.Total)}
+		case *VoteMessage:
+			return VerifWALRecord{Kind: "vote", Peer: string(m.PeerID), Height: x.Vote.Height, Round: x.Vote.Round,
+				VoteType: int32(x.Vote.Type), BlockID: x.Vote.BlockID, ValIndex: x.Vote.ValidatorIndex}
+		}
+	}
+	return VerifWALRecord{Kind: "other"}
+}
